@@ -27,7 +27,7 @@ class Ext:
     """
 
     def __init__(self, ret=None, pure=False, event=None, raises=(), ensures=(), havoc=(), requires=(),
-                 note="", model=None, fresh=True, bind=None, log=None, attr=False, log_type=None):
+                 note="", model=None, fresh=True, bind=None, log=None, attr=False, log_type=None, uf=None, args=None):
         self.ret = ret
         self.pure = pure
         self.event = event
@@ -38,6 +38,8 @@ class Ext:
         self.note = note
         self.model = model
         self.fresh = fresh
+        self.args = args  # declared argument types (union-typed actuals are projected onto them)
+        self.uf = uf  # name of the uninterpreted function (to share one between spellings)
         self.is_attr = attr  # a data attribute / property read, not a call
         self.log_type = log_type
         self.bind = bind  # name under which the (last) result is visible to clauses
@@ -102,9 +104,15 @@ class Contract:
         self.kind = kw.pop("kind", "function")
         self.hooks = dict(kw.pop("hooks", {}))
         self.notes = kw.pop("notes", "")
+        self.defs = dict(kw.pop("defs", {}))  # spec macros: name -> "lambda x: ..."
+        self.snapshots = dict(kw.pop("snapshots", {}))  # label -> callee simple name (heap snapshot after its first call)
+        self.variant = kw.pop("variant", None)  # termination measure for recursive calls
         self.asserts = list(kw.pop("asserts", []))  # [dict(before=<source prefix>, clause=..., label=...)]
         self.ghost_inputs = dict(kw.pop("ghost_inputs", {}))
         self.native_env = kw.pop("native_env", None)
+        self.is_generator_hint = False
+        self.native_prepare = kw.pop("native_prepare", None)  # raw model inputs -> native world objects
+        self.replay_extras = kw.pop("replay_extras", None)  # fn(ev, inputs) -> extra inputs (ghost function values)
         if kw:
             raise TypeError("unknown contract fields: %s" % sorted(kw))
 
